@@ -588,6 +588,9 @@ func runDecisionRows(c *core.Ctx, e *Env, pkgPath, defaultType string, rows []dt
 			// number atoms by their occurrence among all conditions of the function, so that a name means the same program
 			// point in every row of this function
 			for _, b := range bodiesOf(fn) {
+				ev.bodies = append(ev.bodies, [2]token.Pos{b.body.Pos(), b.body.End()})
+			}
+			for _, b := range bodiesOf(fn) {
 				g := graphOfBody(e, fn.Pkg, fn, b)
 				for _, blk := range g.CFG.Blocks {
 					if cd, tag := g.Cond(blk); cd != nil {
@@ -614,51 +617,109 @@ func runDecisionRows(c *core.Ctx, e *Env, pkgPath, defaultType string, rows []dt
 			}
 			return true
 		})
-		codeRoots, refRoots := map[string]bool{}, map[string]bool{}
-		for name := range ev.intTerms {
-			for _, r := range rootIdents(name) {
-				codeRoots[r] = true
-			}
+		// atoms of the table that the code does not use, and atoms of the code the table does not know: if they pair up by
+		// shape (the same text once local variable / parameter names and occurrence numbers are blanked), the difference is a
+		// renaming and every pairing is tried
+		type atomKey struct {
+			kind  string
+			shape string
 		}
-		for name := range ev.boolAtoms {
-			for _, r := range rootIdents(name) {
-				codeRoots[r] = true
-			}
-		}
+		tu, cu := map[atomKey][]string{}, map[atomKey][]string{}
 		for name := range row.ints {
-			for _, r := range rootIdents(name) {
-				refRoots[r] = true
+			if _, ok := ev.intTerms[name]; !ok {
+				k := atomKey{"int", atomShape(name)}
+				tu[k] = append(tu[k], name)
 			}
 		}
 		for _, name := range row.bools {
-			for _, r := range rootIdents(name) {
-				refRoots[r] = true
+			if !ev.boolAtoms[name] {
+				k := atomKey{"bool", atomShape(name)}
+				tu[k] = append(tu[k], name)
 			}
 		}
-		var rl, cl []string
-		for r := range refRoots {
-			if !codeRoots[r] && !localNames[r] {
-				rl = append(rl, r)
-			}
+		declared := map[string]bool{}
+		for name := range row.ints {
+			declared[name] = true
 		}
-		for r := range codeRoots {
-			if !refRoots[r] && localNames[r] {
-				cl = append(cl, r)
-			}
+		for _, name := range row.bools {
+			declared[name] = true
 		}
-		sort.Strings(rl)
-		sort.Strings(cl)
-		// candidate renamings of the table's local names (identity first)
-		renamings := []map[string]string{{}}
-		if len(rl) > 0 && len(rl) == len(cl) && len(rl) <= 3 {
-			renamings = nil
-			permute(cl, func(perm []string) {
-				m := map[string]string{}
-				for i, r := range rl {
-					m[r] = perm[i]
+		localRooted := func(name string) bool {
+			rs := rootIdents(name)
+			if len(rs) == 0 {
+				return false
+			}
+			for _, r := range rs {
+				if !localNames[r] {
+					return false
 				}
-				renamings = append(renamings, m)
-			})
+			}
+			return true
+		}
+		for name := range ev.intTerms {
+			if !declared[name] && localRooted(name) {
+				k := atomKey{"int", atomShape(name)}
+				cu[k] = append(cu[k], name)
+			}
+		}
+		for name := range ev.boolAtoms {
+			if !declared[name] && localRooted(name) {
+				k := atomKey{"bool", atomShape(name)}
+				cu[k] = append(cu[k], name)
+			}
+		}
+		renamings := []map[string]string{{}}
+		// every unknown, local-rooted code atom must be the renamed form of some unused table atom of the same shape
+		feasible := len(cu) > 0
+		var groups []atomKey
+		for k, cs := range cu {
+			sort.Strings(cs)
+			ts := tu[k]
+			sort.Strings(ts)
+			if len(cs) > len(ts) || len(cs) > 3 || len(ts) > 6 {
+				feasible = false
+			}
+			groups = append(groups, k)
+		}
+		sort.Slice(groups, func(i, j int) bool { return groups[i].kind+groups[i].shape < groups[j].kind+groups[j].shape })
+		if feasible {
+			renamings = nil
+			var build func(gi int, cur map[string]string)
+			build = func(gi int, cur map[string]string) {
+				if len(renamings) > 500 {
+					return
+				}
+				if gi == len(groups) {
+					m := map[string]string{}
+					for k, v := range cur {
+						m[k] = v
+					}
+					renamings = append(renamings, m)
+					return
+				}
+				cs, ts := cu[groups[gi]], tu[groups[gi]]
+				// injections cs -> ts
+				used := make([]bool, len(ts))
+				var inj func(ci int)
+				inj = func(ci int) {
+					if ci == len(cs) {
+						build(gi+1, cur)
+						return
+					}
+					for ti := range ts {
+						if used[ti] {
+							continue
+						}
+						used[ti] = true
+						cur[ts[ti]] = cs[ci]
+						inj(ci + 1)
+						delete(cur, ts[ti])
+						used[ti] = false
+					}
+				}
+				inj(0)
+			}
+			build(0, map[string]string{})
 		}
 		codeInts := map[string]types.Type{}
 		for k, v := range ev.intTerms {
@@ -690,20 +751,30 @@ func runDecisionRows(c *core.Ctx, e *Env, pkgPath, defaultType string, rows []dt
 						ty = o.Type()
 					}
 				}
-				nn := renameRoots(name, ren)
+				nn := name
+				if r, ok := ren[name]; ok {
+					nn = r
+				}
 				alias[name] = nn
 				if _, ok := ev.intTerms[nn]; !ok {
 					ev.intTerms[nn] = ty
 				}
 			}
 			for _, b := range row.bools {
-				nn := renameRoots(b, ren)
+				nn := b
+				if r, ok := ren[b]; ok {
+					nn = r
+				}
 				alias[b] = nn
 				ev.boolAtoms[nn] = true
 			}
 			intDom := map[string][]int64{}
 			for k, v := range row.intDom {
-				intDom[renameRoots(k, ren)] = v
+				if r, ok := ren[k]; ok {
+					intDom[r] = v
+				} else {
+					intDom[k] = v
+				}
 			}
 			_ = extra
 			func() {
@@ -757,9 +828,9 @@ func runDecisionRows(c *core.Ctx, e *Env, pkgPath, defaultType string, rows []dt
 							}
 						}
 						if hits == 0 && row.optional {
-						return true
-					}
-					if hits != 1 && !row.optional {
+							return true
+						}
+						if hits != 1 && !row.optional {
 							mismatch = fmt.Sprintf("for %s %d assignments apply (expected exactly one)", env, hits)
 							return false
 						}
@@ -932,4 +1003,24 @@ func permute(xs []string, f func([]string)) {
 		}
 	}
 	rec(0)
+}
+
+// atomShape blanks the local-variable roots and the occurrence number of an atom name.
+func atomShape(name string) string {
+	if i := strings.LastIndex(name, "#"); i >= 0 {
+		digits := true
+		for _, ch := range name[i+1:] {
+			if ch < '0' || ch > '9' {
+				digits = false
+			}
+		}
+		if digits && i+1 < len(name) {
+			name = name[:i]
+		}
+	}
+	roots := map[string]string{}
+	for _, r := range rootIdents(name) {
+		roots[r] = "_"
+	}
+	return renameRoots(name, roots)
 }
